@@ -82,7 +82,7 @@ pub fn replay_history(case: &serde_json::Value, mask: u32) -> Result<(), Failure
 
 pub fn c10(quick: bool, seed: u64) -> Outcome {
     let mut o = Outcome::new(
-        "complete generator over phase-counter values (fresh oscillator at fs=131072 placed on the counter value by one tick with f=acc/128, or walked with increment 1) + proptest histories of tick/set_frequency/set_phase/reset; at every visited phase all five shapes are read in a generated order, twice, and compared with the exact references (hook gives the true counter). distinct_nontrivial = distinct phases in the last two sine-table cells or within 2 counts of 0, 1/4, 1/2, 3/4 of the cycle, plus distinct histories with a set_phase or >= 2 frequency changes",
+        "complete generator over phase-counter values (fresh oscillator at fs=131072 placed on the counter value by one tick with f=acc/128, or walked with increment 1) + proptest histories of tick/set_frequency/set_phase/reset incl. bursts of 3..512 frequency changes or phase jumps in a row; at every visited phase all five shapes are read in a generated order, twice, and compared with the exact references (hook gives the true counter). distinct_nontrivial = distinct phases in the last two sine-table cells or within 2 counts of 0, 1/4, 1/2, 3/4 of the cycle, plus distinct histories with a set_phase or >= 2 frequency changes",
     );
     o.assumptions.push("the hook Lfo::verif_phase_bits() returns the oscillator's phase counter (24-bit cycle)".into());
     o.assumptions.push("reference sine/triangle computed in f64 from the counter value".into());
@@ -142,7 +142,7 @@ pub fn c10_nontrivial(o: &Outcome) -> u64 {
 
 pub fn c11(quick: bool, seed: u64) -> Outcome {
     let mut o = Outcome::new(
-        "proptest histories (1..40 ops) of tick(n)/set_frequency/set_phase/reset/negative-phase pairs at generated sample rates in [100 Hz, 192 kHz]; frequencies from {0, fs, U[0,fs], log-uniform down to fs*2^-26, within 2 ulps of k*fs/2^24, < 4 counts per tick}; phases from {U[0,1), U[0,1000), negative, 1e10/1e30/f32::MAX, subnormal, +-0, k+j/1024}; oracle on the exact counter (hook) after every op and every tick. non-trivial = history containing a frequency whose increment is <= 1 or >= 2^24-1 counts, or a phase argument with |p| >= 1 or p < 0, or >= 10^4 ticks; distinct by hash of the history",
+        "proptest histories (1..40 ops) of tick(n)/set_frequency/set_phase/reset/negative-phase pairs/frequency-change bursts/phase-jump bursts (3..512 calls in a row) at generated sample rates in [100 Hz, 192 kHz]; frequencies from {0, fs, U[0,fs], log-uniform down to fs*2^-26, within 2 ulps of k*fs/2^24, < 4 counts per tick}; phases from {U[0,1), U[0,1000), negative, 1e10/1e30/f32::MAX, subnormal, +-0, k+j/1024}; oracle on the exact counter (hook) after every op and every tick. non-trivial = history containing a frequency whose increment is <= 1 or >= 2^24-1 counts, or a phase argument with |p| >= 1 or p < 0, or >= 10^4 ticks; distinct by hash of the history",
     );
     o.assumptions.push("the hook Lfo::verif_phase_bits() returns the oscillator's phase counter (24-bit cycle)".into());
     o.assumptions.push("frequencies are finite and within [0, fs]; phases are finite (the statement's domain)".into());
